@@ -2,7 +2,6 @@ use std::{
     fs::File,
     io::{BufWriter, Error as IoError, ErrorKind, Result as IoResult, Write},
     path::Path,
-    slice,
 };
 
 use crate::{
@@ -612,6 +611,12 @@ fn add_path_data<W: Write>(
                 }
             }
 
+            // The decoder never starts a new segment at the last point of a
+            // path so a segment that starts there needs its type spelled out.
+            if i > 0 && i == control_points.len() - 1 {
+                needs_explicit_segment = true;
+            }
+
             if needs_explicit_segment {
                 match path_type.kind {
                     SplineType::BSpline => {
@@ -627,8 +632,13 @@ fn add_path_data<W: Write>(
                 }
 
                 // Beatmaps such as /b/1027526 have no control points so the
-                // path type needs to be followed by `,` instead of `|`.
-                writer.write_all(slice::from_ref(&separator(i)))?;
+                // path type needs to be followed by `,` instead of `|`. In
+                // all other cases the position of the point follows.
+                if control_points.len() == 1 {
+                    writer.write_all(b",")?;
+                } else {
+                    writer.write_all(b"|")?;
+                }
 
                 last_type = Some(path_type);
             } else {
